@@ -51,6 +51,6 @@ class CreateDatabase(ASTNode):
         if self.parameters is not None:
             # an empty PARAMETERS {} is part of the tree too (`parameters={}` vs `None`); without ENGINE no comma is read
             comma = ',' if engine_str else ''
-            parameters_str = f'{comma} PARAMETERS = {json.dumps(self.parameters)}'
+            parameters_str = f'{comma} PARAMETERS = {json.dumps(self.parameters, ensure_ascii=False)}'
         out_str = f'CREATE{replace_str} DATABASE {"IF NOT EXISTS " if self.if_not_exists else ""}{self.name.to_string()} {engine_str}{parameters_str}'
         return out_str
